@@ -269,9 +269,9 @@ def h_request(S, B):
     call_like = kind in ("call", "batch", "oneway")
     unexposed_props = [n for n in UNEXPOSED_PROPERTIES[shape]]
     S.known("C02-unexposed-property-getter-runs-when-its-name-is-called",
-            And(call_like, in_names(name, unexposed_props)))
+            And(call_like, in_names(name, unexposed_props)), checks=["only-exposed-members-run", "refusal-has-no-effect", "served-implies-advertised"])
     S.known("C02-plain-attribute-holding-instance-of-exposed-callable-class-is-invoked",
-            And(call_like, eq(name, "chelper")))
+            And(call_like, eq(name, "chelper")), checks=["only-exposed-members-run", "exposed-member-is-served", "served-implies-advertised"])
     getter_ran_for_call = False
     for tag in LOG:
         S.cover("ran")
